@@ -279,6 +279,52 @@ def kill_case(report, rng, backend, evs, k, tag):
         shutil.rmtree(base, ignore_errors=True)
 
 
+def begin_fault_case(report, rng, evs, tag, after_missing_delete):
+    """LMDB: the engine refuses to *begin* the write transaction of a task (map full, I/O error, too many readers) — on the
+    very first task of a freshly started writer, or right after a deletion that found nothing.  That task is lost as a whole;
+    every later event must still be applied."""
+    store = KVStore()
+    lmdb = store.kv.lmdb
+    payload = {"backend": "kv", "case": "begin-fault", "events": evs, "after_missing_delete": after_missing_delete}
+    try:
+        if after_missing_delete:
+            store.delete("ab" * 32)
+            store.quiesce()
+        exc = rng.choice([lmdb.MapFullError, lmdb.Error, RuntimeError])
+        lmdb.BEGIN_FAULT = {"countdown": 1, "exc": exc}
+        died = None
+        try:
+            try:
+                store.add(evs[0])
+            finally:
+                lmdb.BEGIN_FAULT = None
+            for e in evs[1:]:
+                store.add(e)
+        except Exception as ex:      # the writer loop itself raised: in the relay the writer thread is dead from here on
+            died = ex
+        final = store.dump()
+        if died is not None:
+            report.property_failure("kv: a fault at the begin of a write transaction killed the writer loop (%s: %s): every later "
+                                    "event is acknowledged but never written" % (type(died).__name__, died), payload, None)
+        else:
+            ref = KVStore()
+            try:
+                for e in evs[1:]:
+                    ref.add(e)
+                expected = ref.dump()
+            finally:
+                ref.close()
+            if final != expected:
+                report.property_failure("kv: after a task whose write transaction could not begin, the later events did not produce the "
+                                        "state of the history without it (%d keys vs %d)" % (len(final), len(expected)), payload, None)
+        report.case(("kv", "begin-fault", tag, after_missing_delete), nontrivial=True,
+                    sample={"backend": "kv", "case": "begin-fault", "events": len(evs)})
+        report.count("begin_faults_kv")
+    finally:
+        lmdb.BEGIN_FAULT = None
+        store.close()
+
+
 def run(report, tier, seed):
     rng = random.Random(seed)
     drv = common.Driver()
@@ -287,6 +333,8 @@ def run(report, tier, seed):
         "histories of 3-6 events (regular, replaceable, parameterised replaceable, kind-0, kind-5 with one or two "
         "references); for every event and every (quick: up to 6 sampled) mutation point k: an engine exception (MapFullError / "
         "lmdb.Error / RuntimeError below kv.py; RuntimeError at the k-th SQL statement) — state must equal 'before', later "
+        "events must give the state of the history without the event; LMDB also: the engine refuses to begin the write transaction of "
+        "the first task of a fresh writer (or of the task after a deletion that found nothing) — later "
         "events must give the state of the history without the event; process kills (os._exit) at sampled mutation points on "
         "file-backed LMDB and SQLite, store reopened by the parent; non-trivial = every fault point")
     report.assumptions += ["engine atomicity/durability (LMDB, SQLite WAL) is trusted: torn pages and fsync behaviour are not reachable",
@@ -298,6 +346,9 @@ def run(report, tier, seed):
             evs = gen_history(rng, rng.randint(3, 6))
             for backend in ("kv", "sql"):
                 enumerate_faults(report, drv, rng, backend, evs, hidx, max_points)
+        for hidx in range(4 if tier == "quick" else 60):
+            evs = gen_history(rng, rng.randint(2, 5))
+            begin_fault_case(report, rng, evs, hidx, after_missing_delete=bool(hidx % 2))
         kills = 3 if tier == "quick" else 40
         for backend in ("kv", "sql"):
             done = 0
@@ -323,5 +374,7 @@ def replay(report, path):
                 enumerate_faults(report, drv, rng, r["backend"], r["events"], "replay", 100)
             elif "kill_at" in r:
                 kill_case(report, rng, r["backend"], r["events"], r["kill_at"], "replay")
+            elif r.get("case") == "begin-fault":
+                begin_fault_case(report, rng, r["events"], "replay", r["after_missing_delete"])
     finally:
         drv.close()
